@@ -356,7 +356,9 @@ func (e *c03env) build(c c03case, view chain.View) c03built {
 	case "wrongpk":
 		// the account at this address stores another party's key; that party signs
 		addr, pkOwn = chain.Addr(kWrongPK), chain.Pub(kOtherKey)
-		signFn = func(v string, sb []byte) ([]byte, crypto.PublicKey) { return sigOf(kOtherKey, sb), chain.Pub(kOtherKey) }
+		signFn = func(v string, sb []byte) ([]byte, crypto.PublicKey) {
+			return sigOf(kOtherKey, sb), chain.Pub(kOtherKey)
+		}
 		variant = "own"
 	case "bal=fee-1", "bal=fee", "bal=fee+amount", "unknown", "nopk":
 		k := map[string]int{"bal=fee-1": kBalLow, "bal=fee": kBalFee, "bal=fee+amount": kBalEnough, "unknown": kUnknown, "nopk": kNoPK}[c.Acct]
